@@ -111,6 +111,19 @@ def _worker_entry(fn, job, hang_s, out_path):
 
     faulthandler.enable()
     faulthandler.dump_traceback_later(hang_s, exit=True)
+
+    def checkpoint(partial):
+        """Persist what the job has found so far: if the process is later killed by the code under
+        test (e.g. memory corruption in a kernel), the violations already found are still reported."""
+        try:
+            with open(out_path + ".part.tmp", "wb") as f:
+                pickle.dump(partial, f)
+            os.replace(out_path + ".part.tmp", out_path + ".part")
+        except Exception:  # noqa: BLE001
+            pass
+
+    job = dict(job)
+    job["_checkpoint"] = checkpoint
     try:
         res = fn(job)
         with open(out_path + ".tmp", "wb") as f:
@@ -165,6 +178,13 @@ def run_jobs(fn, jobs, nproc=16, hang_s=900, spawn=False):
                         errors.append(f"job {job.get('name', job)!r}: unreadable result: {e}")
                 else:
                     errors.append(f"job {job.get('name', job)!r}: worker process died (exit code {pr.exitcode}) before reporting")
+                    if os.path.exists(out + ".part"):
+                        try:
+                            with open(out + ".part", "rb") as f:
+                                results.append(pickle.load(f))
+                            errors[-1] += " (its last checkpoint is included)"
+                        except Exception:  # noqa: BLE001
+                            pass
             running = still
     finally:
         for pr, *_ in running:
